@@ -89,7 +89,13 @@ def lay(prop, tier, name):
 
 def c05(tier, seed):
     return [lay("C05", tier, "layout_matrix_" + tier[0]),
-            stage(CT.ctor_stage, "C05", tier, "release_" + tier[0], ["release", "union_drop"], True)]
+            stage(CT.ctor_stage, "C05", tier, "release_" + tier[0], ["release", "union_drop"], True),
+            # a block must be large enough whatever the iterator claims: misreporting iterators, red zones
+            stage(CT.ctor_stage, "C05", tier, "ctor_fit_" + tier[0], ["fhi", "thin", "collect", "vec"], True,
+                  only_cats={"overrun", "layout", "baddrop"}),
+            # "freed once, when the last handle goes away" along histories with panicking Clone / callbacks
+            sized("C05", tier, "sized_release_" + tier[0], BASE + CONV_CORE + ["MakeMut", "UnwrapOrClone", "Enter", "Exit", "TryUnwrap"],
+                  3 if tier == "quick" else 4, 2, 1, hows=("new", "newB"))]
 
 
 def c11(tier, seed):
@@ -105,9 +111,9 @@ THIN_OPS = ["NewFat", "NewThin", "Clone", "CloneFrom", "Drop", "IntoThin", "From
 
 
 def thin_cfg(ops, nslots, nblocks, frames, maxlen):
-    return "\n".join(["SPECIFICATION Spec", "CONSTANTS", "  NSlots = %d" % nslots, "  NBlocks = %d" % nblocks,
+    return "\n".join(["SPECIFICATION MCSpec", "CONSTANTS", "  NSlots = %d" % nslots, "  NBlocks = %d" % nblocks,
                       "  MaxFrames = %d" % frames, "  MaxLen = %d" % maxlen, "  KeepHist = TRUE", "  Ops = %s" % S.tla_set(ops),
-                      "VIEW CanonView", "INVARIANT Invariants", "PROPERTY ActionsOK", "ACTION_CONSTRAINT Emit", "CHECK_DEADLOCK FALSE", ""])
+                      "VIEW MCView", "INVARIANT Invariants", "PROPERTY ActionsOK", "ACTION_CONSTRAINT Emit", "CHECK_DEADLOCK FALSE", ""])
 
 
 def thin(prop, tier, name, ops, nslots, nblocks, frames, maxlen, simulate=None):
@@ -120,8 +126,8 @@ UNINIT_OPS = ["NewUninit", "Write", "ArcWrite", "AsMutSlice", "Clone", "Drop", "
 
 
 def uninit(prop, tier, name, nslots, nblocks, maxlen, simulate=None):
-    cfg = "\n".join(["SPECIFICATION Spec", "CONSTANTS", "  NSlots = %d" % nslots, "  NBlocks = %d" % nblocks, "  MaxLen = %d" % maxlen,
-                     "  KeepHist = TRUE", "  Ops = %s" % S.tla_set(UNINIT_OPS), "VIEW CanonView", "INVARIANT Invariants",
+    cfg = "\n".join(["SPECIFICATION MCSpec", "CONSTANTS", "  NSlots = %d" % nslots, "  NBlocks = %d" % nblocks, "  MaxLen = %d" % maxlen,
+                     "  KeepHist = TRUE", "  Ops = %s" % S.tla_set(UNINIT_OPS), "VIEW MCView", "INVARIANT Invariants",
                      "PROPERTY ActionsOK", "ACTION_CONSTRAINT Emit", "CHECK_DEADLOCK FALSE", ""])
     return stage(S.graph_replay, prop, tier, name, "uninit", "MC_Uninit.tla", UNINIT_MODULES, cfg, nslots, simulate=simulate)
 
@@ -169,8 +175,8 @@ SLICES_OPS = ["New", "Clone", "Drop", "Erase", "Unerase", "IntoRaw", "FromRawSli
 
 
 def slices(prop, tier, name, nslots, nblocks, maxlen, simulate=None):
-    cfg = "\n".join(["SPECIFICATION Spec", "CONSTANTS", "  NSlots = %d" % nslots, "  NBlocks = %d" % nblocks, "  MaxLen = %d" % maxlen, "  ArrLen = 2",
-                     "  KeepHist = TRUE", "  Ops = %s" % S.tla_set(SLICES_OPS), "VIEW CanonView", "INVARIANT Invariants",
+    cfg = "\n".join(["SPECIFICATION MCSpec", "CONSTANTS", "  NSlots = %d" % nslots, "  NBlocks = %d" % nblocks, "  MaxLen = %d" % maxlen, "  ArrLen = 2",
+                     "  KeepHist = TRUE", "  Ops = %s" % S.tla_set(SLICES_OPS), "VIEW MCView", "INVARIANT Invariants",
                      "PROPERTY ActionsOK", "ACTION_CONSTRAINT Emit", "CHECK_DEADLOCK FALSE", ""])
     return stage(S.graph_replay, prop, tier, name, "slices", "MC_Slices.tla", SLICES_MODULES, cfg, nslots, simulate=simulate)
 
